@@ -15,7 +15,7 @@
 From Coq Require Import String NArith ZArith QArith Bool Arith List Permutation.
 From GT Require Import Base.UTree Spec.Obs Spec.CompareSpec Spec.Unrooted Model.Reroot Model.Index Model.EdgeIndex Model.Compare
      Proofs.IndexSplit Proofs.CompareBase Proofs.CompareTree Proofs.CompareMain Proofs.CompareCor
-     Proofs.CompareDomain Proofs.CompareDupfree Proofs.CompareWeighted Proofs.CompareAll Proofs.CompareIdent.
+     Proofs.CompareDomain Proofs.CompareDupfree Proofs.CompareWeighted Proofs.CompareAll Proofs.CompareIdent Proofs.CompareBridge Proofs.CompareCommon.
 Import ListNotations.
 Local Close Scope Q_scope.
 
@@ -164,3 +164,59 @@ Example C08_sametree_witness_fixed :
   compare false false wit_ref wit_star = Some (Ok (mkBS 1 0 0 false EmptyString)).
 Proof. exact sametree_witness_fixed. Qed.
 Print Assumptions C08_sametree_witness_fixed.
+
+(** * bridge: the model over the real hash index (Model/EdgeIndex.v over Model/HashMap.v, the
+    instance the judge compares with the Go records) returns what the association-list model
+    returns, for good trees on one taxon set (C04: Proofs/EdgeIndex.v [ei_put_ref], [ei_value_ref]).
+    Conditional on the hash-index model returning ([None] = run-time panic, excluded by C04 under
+    its no-overflow condition); sizes below 2^64. *)
+Theorem C08_compare_hm_refines :
+  forall tips ident t1 t2 r,
+    good t1 -> good t2 -> Permutation (leaves t1) (leaves t2) ->
+    (N.of_nat (length (branch_keys 0 t1) * 2) < W64)%N ->
+    compare_hm tips ident t1 t2 = Some r -> compare tips ident t1 t2 = Some r.
+Proof. exact compare_hm_refines. Qed.
+Print Assumptions C08_compare_hm_refines.
+
+Theorem C08_compare_weighted_hm_refines :
+  forall tips ident t1 t2 r,
+    good t1 -> good t2 -> Permutation (leaves t1) (leaves t2) ->
+    (N.of_nat (length (branch_keys 0 t1) * 2) < W64)%N ->
+    (N.of_nat (length (branch_keys 1 t2) * 2) < W64)%N ->
+    compare_weighted_hm tips ident t1 t2 = Some r -> compare_weighted tips ident t1 t2 = Some r.
+Proof. exact compare_weighted_hm_refines. Qed.
+Print Assumptions C08_compare_weighted_hm_refines.
+
+Theorem C08_compare_hm_counts_unrooted :
+  forall tips t1 t2 r,
+    unrooted t1 -> unrooted t2 -> Permutation (leaves t1) (leaves t2) ->
+    (N.of_nat (length (branch_keys 0 t1) * 2) < W64)%N ->
+    compare_hm tips false t1 t2 = Some r ->
+    r = Ok (mkBS (Z.of_nat (c_only1 (spec_counts tips t1 t2))) (Z.of_nat (c_only2 (spec_counts tips t1 t2)))
+                 (Z.of_nat (c_both (spec_counts tips t1 t2))) (spec_identical tips t1 t2) EmptyString).
+Proof. exact compare_hm_counts_unrooted. Qed.
+Print Assumptions C08_compare_hm_counts_unrooted.
+
+Theorem C08_compare_weighted_hm_unrooted :
+  forall tips t1 t2 r,
+    unrooted t1 -> unrooted t2 -> Permutation (leaves t1) (leaves t2) ->
+    (N.of_nat (length (branch_keys 0 t1) * 2) < W64)%N ->
+    (N.of_nat (length (branch_keys 1 t2) * 2) < W64)%N ->
+    compare_weighted_hm tips false t1 t2 = Some r ->
+    r = Ok (mkWS (spec_w_only1 tips t1 t2) (spec_w_only2 tips t1 t2) (spec_w_common tips t1 t2)
+                 (Nat.eqb (length (spec_w_only1 tips t1 t2)) 0 && Nat.eqb (length (spec_w_only2 tips t1 t2)) 0
+                  && all_zero (spec_w_common tips t1 t2)) EmptyString).
+Proof. exact compare_weighted_hm_unrooted. Qed.
+Print Assumptions C08_compare_weighted_hm_unrooted.
+
+(** * the pairwise variant by linear search (Tree.CommonEdges / Edge.FindEdge, which returns the
+    receiver): (|S1 \ S2|, |S1 /\ S2|), never an error on the domain; uses C04's closed form of the
+    loop (Proofs/IndexCommon.v [common_edges_spec]) *)
+Theorem C08_common_edges_counts :
+  forall te t1 t2,
+    good t1 -> good t2 -> Permutation (leaves t1) (leaves t2) ->
+    dupfree t1 -> dupfree t2 -> tipflags t1 -> tipflags t2 ->
+    common_edges te t1 t2 =
+    Ok (Z.of_nat (c_only1 (spec_counts te t1 t2)), Z.of_nat (c_both (spec_counts te t1 t2))).
+Proof. exact common_edges_counts. Qed.
+Print Assumptions C08_common_edges_counts.
